@@ -1136,6 +1136,12 @@ class Interp:
         needle = "{closure@" + span + "}"
         for fname, ln in self.prog.fn_index.items():
             if "{closure#" in fname and needle in self.prog.lines[ln]:
+                # the closure's own type is the type of its first parameter; the same text in the return type or in a later
+                # parameter belongs to ANOTHER closure (e.g. `|g| g.iter().map(|m| ..)` returns Map<_, {inner closure}>)
+                hdr = self.prog.lines[ln]
+                first = hdr.split(", _2:")[0].split(") ->")[0]
+                if needle not in first:
+                    continue
                 if within is not None:
                     base = within.split("@")[0]
                     if not (fname.startswith(base + "::") and re.fullmatch(r"\{closure#\d+\}", fname[len(base) + 2:])):
